@@ -47,9 +47,23 @@ def _names(e: ast.AST) -> set[str]:
     return {n.id for n in ast.walk(e) if isinstance(n, ast.Name)}
 
 
-def memo_findings(mod: PyModule, fn: ast.FunctionDef, inputs: Iterable[str], memory_dependent: bool = False) -> list[tuple[int, str]]:
-    """[(line, description)] for memos in `fn` whose key does not cover `inputs` (or any memo when the result also depends on memory)."""
-    out: list[tuple[int, str]] = []
+def memo_findings(mod: PyModule, fn: ast.FunctionDef, inputs: Iterable[str], memory_dependent: bool = False, _depth: int = 0) -> list[tuple[int, str]]:
+    """[(line, description)] for memos in `fn` whose key does not cover `inputs` (or any memo when the result also depends on memory).
+    Methods of the same class that `fn` calls through `self.` are followed (their own parameters are their inputs)."""
+    inputs = tuple(inputs)
+    out: list[tuple[int, str]] = _scalar_memos(mod, fn, inputs, memory_dependent)
+    if _depth < 3:
+        cls = _class_of(mod, fn)
+        if cls is not None:
+            meths = {m.name: m for m in cls.body if isinstance(m, (ast.FunctionDef, ast.AsyncFunctionDef))}
+            for c in ast.walk(fn):
+                if isinstance(c, ast.Call) and isinstance(c.func, ast.Attribute) and isinstance(c.func.value, ast.Name) and c.func.value.id == "self" and c.func.attr in meths and meths[c.func.attr] is not fn:
+                    h = meths[c.func.attr]
+                    hin = tuple(a.arg for a in h.args.args + h.args.kwonlyargs if a.arg != "self")
+                    # only helpers that receive (something derived from) the inputs matter
+                    if any(isinstance(x, ast.Name) and x.id in inputs for a in list(c.args) + [k.value for k in c.keywords] for x in ast.walk(a)):
+                        for ln, what in memo_findings(mod, h, hin, memory_dependent, _depth + 1):
+                            out.append((ln, what + f" (helper of {fn.name})"))
     for d in fn.decorator_list:
         dd = d.func if isinstance(d, ast.Call) else d
         nm = dd.id if isinstance(dd, ast.Name) else getattr(dd, "attr", "")
@@ -226,3 +240,101 @@ def incoherent_copies(mods: list[PyModule], state_mod: PyModule, state_cls: str,
                     for _m, (ccls, attr, meth, cln) in copies:
                         out.append((m.rel, ln, f"{cls.name}.{fn.name} changes chip state through {what} without dropping {ccls}.{attr}, the stored copy that {ccls}.{meth} returns (line {cln}): later readers of {meth} - the snapshot saver among them - see the state before the change"))
     return out, scanned
+
+
+
+def _class_of(mod: PyModule, fn: ast.AST) -> ast.ClassDef | None:
+    for c in ast.walk(mod.tree):
+        if isinstance(c, ast.ClassDef) and any(m is fn for m in c.body):
+            return c
+    return None
+
+
+def _persistent_attrs(mod: PyModule) -> dict[str, int]:
+    """'self.X' -> line, for attributes assigned in some method other than __init__ (state that outlives a call and changes)."""
+    out: dict[str, int] = {}
+    for f in [x for x in ast.walk(mod.tree) if isinstance(x, (ast.FunctionDef, ast.AsyncFunctionDef)) and x.name != "__init__"]:
+        for n in ast.walk(f):
+            ts = n.targets if isinstance(n, ast.Assign) else [n.target] if isinstance(n, (ast.AnnAssign, ast.AugAssign)) else []
+            for t in ts:
+                for e in (t.elts if isinstance(t, (ast.Tuple, ast.List)) else [t]):
+                    a = _self_attr(e)
+                    if a:
+                        out.setdefault("self." + a, n.lineno)
+    return out
+
+
+def _scalar_memos(mod: PyModule, fn: ast.FunctionDef, inputs: tuple, memory_dependent: bool) -> list[tuple[int, str]]:
+    """`return <something read from self.X>` where X is re-assigned by methods: the value was computed by an earlier call.  It is the
+    answer to *this* call only if the path to the return compares the remembered key with every input."""
+    persist = _persistent_attrs(mod)
+    parent: dict[int, ast.AST] = {}
+    for p in ast.walk(fn):
+        for c in ast.iter_child_nodes(p):
+            parent[id(c)] = p
+    defs: dict[str, list[ast.AST]] = {}
+    for n in ast.walk(fn):
+        if isinstance(n, ast.Assign) and len(n.targets) == 1 and isinstance(n.targets[0], ast.Name):
+            defs.setdefault(n.targets[0].id, []).append(n.value)
+        if isinstance(n, ast.NamedExpr) and isinstance(n.target, ast.Name):
+            defs.setdefault(n.target.id, []).append(n.value)
+
+    def reads_persist(e: ast.AST, depth: int = 0) -> str | None:
+        for x in ast.walk(e):
+            if isinstance(x, ast.Attribute) and isinstance(x.ctx, ast.Load):
+                ch = unparse(x)
+                if ch in persist:
+                    # a method call on the attribute (self.memory.read_byte) is a query of live state, not a remembered result
+                    par = parent.get(id(x))
+                    if isinstance(par, ast.Attribute) and isinstance(parent.get(id(par)), ast.Call) and parent[id(par)].func is par:
+                        continue
+                    return ch
+            if isinstance(x, ast.Name) and x.id in defs and depth < 4:
+                for v in defs[x.id]:
+                    r = reads_persist(v, depth + 1)
+                    if r:
+                        return r
+        return None
+
+    def roots(e: ast.AST, depth: int = 0) -> set[str]:
+        r: set[str] = set()
+        for nm in _names(e):
+            if nm in defs and depth < 5:
+                r.add(nm)
+                for v in defs[nm]:
+                    r |= roots(v, depth + 1)
+            else:
+                r.add(nm)
+        return r
+
+    out: list[tuple[int, str]] = []
+    for ret in [r for r in ast.walk(fn) if isinstance(r, ast.Return) and r.value is not None]:
+        # returns nested in inner defs belong to those
+        anc = parent.get(id(ret))
+        inner = False
+        tests: list[ast.AST] = []
+        while anc is not None and anc is not fn:
+            if isinstance(anc, (ast.FunctionDef, ast.AsyncFunctionDef, ast.Lambda)):
+                inner = True
+                break
+            if isinstance(anc, (ast.If, ast.While)):
+                tests.append(anc.test)
+            anc = parent.get(id(anc))
+        if inner:
+            continue
+        src = reads_persist(ret.value)
+        if not src:
+            continue
+        covered: set[str] = set()
+        for t in tests:
+            for cmp_ in [c for c in ast.walk(t) if isinstance(c, ast.Compare)]:
+                sides = [cmp_.left] + list(cmp_.comparators)
+                if any(reads_persist(sd) for sd in sides):
+                    for sd in sides:
+                        covered |= roots(sd)
+        missing = [i for i in inputs if i not in covered]
+        if memory_dependent:
+            out.append((ret.lineno, f"{fn.name} returns a value remembered in `{src}` by an earlier call: the result depends on memory contents, which no remembered key can stand for"))
+        elif missing:
+            out.append((ret.lineno, f"{fn.name} returns a value remembered in `{src}` by an earlier call without comparing the remembered key with {missing}: a call with other {'/'.join(missing)} gets an earlier call's answer"))
+    return out
